@@ -6,8 +6,8 @@ it and PASSES without it. On success writes seeded/<PID>-m<n>/{patch.diff, demo.
 import json, os, shutil, subprocess, sys
 
 REPO = "/repo"
-WT = "/tmp/vfy"
-TGT = "/tmp/vfy-target"
+WT = "/tmp/vfy" + os.environ.get("VFY_SLOT", "")
+TGT = WT + "-target"
 
 
 def sh(cmd, cwd=None, env=None):
@@ -38,6 +38,13 @@ def main():
         k = sys.argv[sys.argv.index("--round5") + 1]
         src = "/tmp/w5-%s-out" % k
         tag = "r5m"
+        patch = os.path.join(src, "%s-m%s.diff" % (pid, n))
+        demo = os.path.join(src, "%s-m%s_demo.rs" % (pid, n))
+    if "--round6" in sys.argv:
+        # round 6: as round 5, files in /tmp/w6-<K>-out, description in <PID>-m<n>.txt
+        k = sys.argv[sys.argv.index("--round6") + 1]
+        src = "/tmp/w6-%s-out" % k
+        tag = "r6m"
         patch = os.path.join(src, "%s-m%s.diff" % (pid, n))
         demo = os.path.join(src, "%s-m%s_demo.rs" % (pid, n))
     if "--demo" in sys.argv:
@@ -78,7 +85,12 @@ def main():
     shutil.copy(demo, os.path.join(d, "demo.rs"))
     needs = sys.argv[sys.argv.index("--needs") + 1] if "--needs" in sys.argv else ""
     what = sys.argv[sys.argv.index("--what") + 1] if "--what" in sys.argv else ""
-    meta = {"property": pid, "origin": "independent sub-agent given only the property text and a scratch worktree" + ("; round 4 (process-level properties only, after all earlier strengthening)" if tag == "r4m" else "") + ("; round 5: adversarial - additionally told, in generic terms, what the strengthened tester drives (corpora, size ladders, nesting contexts, laws) and asked for changes it could still miss" if tag == "r5m" else "") + ("; round 3 (after the size ladders and the other round-2 strengthening were in place)" if tag == "r3m" else "") + ("; round 2: additionally told, in generic terms, that the checker is a corpus + random differential tester with laws, and asked for changes such a tester could miss" if tag == "r2m" else ""),
+    txt = patch[:-5] + ".txt"
+    if not what and os.path.exists(txt):
+        what = " ".join(open(txt).read().split())
+    if not needs and os.path.exists(txt):
+        needs = "see 'what'"
+    meta = {"property": pid, "origin": "independent sub-agent given only the property text and a scratch worktree" + ("; round 4 (process-level properties only, after all earlier strengthening)" if tag == "r4m" else "") + ("; round 5: adversarial - additionally told, in generic terms, what the strengthened tester drives (corpora, size ladders, nesting contexts, laws) and asked for changes it could still miss" if tag == "r5m" else "") + ("; round 6: given only the property text; asked for faults that need something specific to manifest (unusual input, interleaving, multi-step history, a fault at a particular point, two cooperating sites)" if tag == "r6m" else "") + ("; round 3 (after the size ladders and the other round-2 strengthening were in place)" if tag == "r3m" else "") + ("; round 2: additionally told, in generic terms, that the checker is a corpus + random differential tester with laws, and asked for changes such a tester could miss" if tag == "r2m" else ""),
             "what": what, "needs_to_manifest": needs,
             "confirmed": {"baseline_tests_with_patch": "%d passed (cargo test --workspace --no-fail-fast --offline)" % passed,
                           "demo_with_patch": (wl[-1] if wl else "failed to build/run") , "demo_without_patch": ol[-1] if ol else "",
